@@ -491,7 +491,10 @@ def main():
     traces = []
     try:
         runs = []
-        for sc in scenarios(rng, a.tier):
+        scs = []
+        for rnd in range(1 if a.tier == "quick" else 4):
+            scs += scenarios(rng, a.tier)
+        for sc in scs:
             if len(sc) == 7:
                 runs.append(sc)
             elif sc[0] in ("imm_add_lease", "imm_renew_lease", "imm_allocate_existing", "mut_add_lease", "mut_grow"):
